@@ -407,6 +407,12 @@ fn latitudes(h: &H, idx: u64, rng: &mut Rng) {
     if fwd(0.0) != 0.0 {
         v(h, idx, &format!("latitude/{k}/zero-not-fixed"), detail(0.0, fwd(0.0)));
     }
+    for z in [0.0, -0.0] {
+        if inv(z) != 0.0 {
+            v(h, idx, &format!("latitude/{k}/zero-not-fixed-by-the-inverse"), detail(z, inv(z)));
+            return;
+        }
+    }
     let at_pole = fwd(FRAC_PI_2);
     if k == "isometric" {
         if !(at_pole > 30.0) {
